@@ -69,6 +69,8 @@ structure EndG (σ0 : FState) (M : List Nat) (t1 t3 t5 : CState) : Prop where
   expq : ∀ p ∈ t5.expq, p ∈ t3.expq ∧ p.2 ∉ M
   keptNF : ∀ k ∈ t5.qc.kept, k ∉ t5.qc.free
   nl : ∀ a ∈ t5.qc.anc, a ∈ t5.qc.free ∨ a ∈ t5.qc.kept
+  nq : t5.qc.numQubits = t1.qc.numQubits
+  kept : M ≠ [] → t5.qc.kept = t1.qc.kept
 
 /-- the statement's result is kept to the end: the inline `uncompute` replays, in reverse, the gates whose
 target is marked; `bennettF` shows that the released ancillas are zero again -/
@@ -146,7 +148,7 @@ theorem stmt_unc {scope : List String} {r : String} {v nc : Bool} {iret : Nat} {
     exact this
   have hkept5 : t5.qc.kept = t1.qc.kept := by rw [hqc5, c10, hd.kp3]
   refine ⟨hg5, hav5, hv4M, hv4N, hfree5, by rw [hqc5, c2], by rw [hqc5, c4], ?_,
-    by rw [hqc5, c6, hmk3, hd.fr3]; exact foldl_setIns_nodup _ _ gi.freeNd, ?_, ?_, ?_, ?_⟩
+    by rw [hqc5, c6, hmk3, hd.fr3]; exact foldl_setIns_nodup _ _ gi.freeNd, ?_, ?_, ?_, ?_, hnq5, fun _ => hkept5⟩
   · rw [hqc5, c7, hmk3]
     apply List.filter_eq_nil_iff.mpr
     intro m hm
@@ -206,7 +208,7 @@ theorem stmt_keep {scope : List String} {r : String} {v nc : Bool} {iret : Nat} 
   have hcur : cur σ0 t5 = cur σ0 t1 := by rw [cur_congr hgt5, cur_congr hd.gates3]
   refine ⟨hg5, fun x => (by rw [hav]; simp), fun q hq => (by cases hq), fun q _ => (by rw [hcur]),
     fun x => (by rw [hf5, hd.fr3]; simp), hq5, ha5, hm5, (by rw [hf5, hd.fr3]; exact gi.freeNd), ?_,
-    fun p hp => ⟨(by rw [← hex5]; exact hp), List.not_mem_nil⟩, ?_, ?_⟩
+    fun p hp => ⟨(by rw [← hex5]; exact hp), List.not_mem_nil⟩, ?_, ?_, hn5.trans hd.nq3, fun h => absurd rfl h⟩
   · intro g hg ha
     rw [hgc5, hd.comp3, gi.comp] at hg
     have ha1 : Avail t1 g.target := (hav _).mp ha
